@@ -86,7 +86,11 @@ def make_c(R, tm, rng):
     ev = ['%d = E "section s%d"' % (t, i) for i, t in enumerate(ticks(2))] + ['%d = E "lyric l%d"' % (t, i) for i, t in enumerate(ticks(2))] + ['%d = E "t%d"' % (t, i) for i, t in enumerate(ticks(2))]
     body = []
     for i, t in enumerate(sorted(set(ticks(6)))):
-        body.append("%d = N %d %d" % (t, i % 5, rng.choice([0, R // 2, 3 * R, tm[-1][0] + 5])))
+        ln = rng.choice([0, R // 2, 3 * R, tm[-1][0] + 5])
+        body.append("%d = N %d %d" % (t, i % 5, ln))
+        if i > 0 and rng.random() < 0.4:
+            # a flag line carrying a (meaningless) length larger than the lane's: must not move the end time
+            body.append("%d = N %d %d" % (t, rng.choice([5, 6]), ln + rng.choice([1, R, 7 * R])))
     body += ["%d = S 2 %d" % (t, rng.choice([0, R, 10 * R])) for t in ticks(2)] + ["%d = E solo%d" % (t, i) for i, t in enumerate(ticks(2))]
     text = chart_text(res=R, sync=sync, events=ev, tracks=[(rng.choice(["ExpertSingle", "HardDrums", "EasyGHLBass"]), body)])
     ch, exc, out = parse_case(text)
@@ -120,7 +124,7 @@ def run(ctx, only=None):
         cs = [remake_c(c) for c in only if c and c.get("kind") == "chart"]
     else:
         quick = ctx["tier"] == "quick"
-        qs = q_cases(ctx, 70 if quick else 2500, 40 if quick else 400)
+        qs = q_cases(ctx, 70 if quick else 1200, 40 if quick else 400)
         cs = c_cases(ctx, 50 if quick else 800)
     return merge([run_cases("C01q", qs, Q_IN, Q_OUT, Q_VERDICT, Q_SPEC, shard_size=6),
                   run_cases("C01c", cs, C_IN, PARSE_OUT, C_VERDICT, C_SPEC, shard_size=10)])
